@@ -17,6 +17,7 @@ import IoosQc.Model.FxParse
 import IoosQc.Model.Creator
 import IoosQc.Model.CallRun
 import IoosQc.Model.System
+import IoosQc.Model.Np
 
 open Lean IoosQc IoosQc.Wire
 
@@ -526,6 +527,68 @@ def handleSystem (j : Json) : D Json := do
            ("dict", Json.arr (m.2.2.map toJson).toArray)]).toArray),
       ("differs", Json.arr (bad.map fun m => Json.str (m.1.1 ++ ":" ++ m.1.2)).toArray) ])
 
+
+/-! ### numpy primitives (Model/Np) -/
+
+open IoosQc.Np in
+def asFl (j : Json) : D Np.Fl := if j.isNull then pure .nan else Np.Fl.num <$> asRat j
+
+def asCellNp (j : Json) : D Np.Cell :=
+  match j with
+  | .arr #[d, m] => do pure ⟨← asFl d, ← asBool m⟩
+  | _ => throw "cell: [data|null, mask]"
+
+def asBCellNp (j : Json) : D Np.BCell :=
+  match j with
+  | .arr #[d, m] => do pure ⟨← asBool d, ← asBool m⟩
+  | _ => throw "bcell: [bool, mask]"
+
+def flToJson : Np.Fl → Json
+  | .nan => Json.null
+  | .num q => Json.arr #[toJson q.num, toJson q.den]
+
+def cellsToJson (a : Np.MArr) : Json := Json.arr (a.map fun c => Json.arr #[flToJson c.d, toJson c.m]).toArray
+def bcellsToJson (a : Np.BArr) : Json := Json.arr (a.map fun c => Json.arr #[toJson c.d, toJson c.m]).toArray
+def flagsToJson (a : List Flag) : Json := Json.arr (a.map fun f => toJson f.code).toArray
+
+def asFlagList (j : Json) : D (List Flag) := do
+  let cs ← asList asInt j
+  cs.mapM fun c => match Flag.ofCode? c with | some f => pure f | none => throw "flag code"
+
+/-- kind = "np": one primitive of `Model/Np` on explicit cells; the harness compares data AND mask
+    with what the installed numpy computes for the same operation. -/
+def handleNp (j : Json) : D Json := do
+  let op ← field j "op" >>= asStr
+  let a : D Np.MArr := field j "a" >>= asList asCellNp
+  let b : D Np.MArr := field j "b" >>= asList asCellNp
+  let r : D Rat := field j "r" >>= asRat
+  let out ← (match op with
+    | "add" => do pure (cellsToJson (Np.maBin Np.Fl.add (← a) (← b)))
+    | "sub" => do pure (cellsToJson (Np.maBin Np.Fl.sub (← a) (← b)))
+    | "mul" => do pure (cellsToJson (Np.maBin Np.Fl.mul (← a) (← b)))
+    | "divS" => do pure (cellsToJson (Np.maDivS (← a) (← r)))
+    | "divArr" => do pure (cellsToJson (Np.maDivArr (← a) (← field j "d" >>= asList asRat)))
+    | "abs" => do pure (cellsToJson (Np.uf1 Np.Fl.abs (← a)))
+    | "minimum" => do pure (cellsToJson (Np.uf2 Np.Fl.min (← a) (← b)))
+    | "diff" => do pure (cellsToJson (Np.maDiff (← a)))
+    | "masked_invalid" => do pure (cellsToJson (Np.maskedInvalid (← a)))
+    | "set_inner_zeros" => do pure (cellsToJson (Np.setInner (Np.zeros ((← a).length + 2)) (← a)))
+    | "set_tail_zeros" => do pure (cellsToJson (Np.setTail (Np.zeros ((← a).length + 1)) (← a)))
+    | "gt" => do pure (bcellsToJson (Np.gtS (← a) (← r)))
+    | "lt" => do pure (bcellsToJson (Np.ltS (← a) (← r)))
+    | "ge" => do pure (bcellsToJson (Np.geS (← a) (← r)))
+    | "or" => do pure (bcellsToJson (Np.bor (← field j "c1" >>= asList asBCellNp) (← field j "c2" >>= asList asBCellNp)))
+    | "set_where_b" => do
+        pure (flagsToJson (Np.setWhereB (← field j "flags" >>= asFlagList) (← field j "c1" >>= asList asBCellNp) .fail))
+    | "set_where" => do
+        pure (flagsToJson (Np.setWhere (← field j "flags" >>= asFlagList) (Np.maskOf (← a)) .missing))
+    | "set_zero_where_b" => do pure (cellsToJson (Np.setZeroWhereB (← a) (← field j "c1" >>= asList asBCellNp)))
+    | "set_first_last" => do
+        pure (flagsToJson (Np.setLast (Np.setFirst (← field j "flags" >>= asFlagList) .unknown) .unknown))
+    | "of_input" => do pure (cellsToJson (Np.ofInput (← field j "v" >>= asList asV)))
+    | s => throw s!"unknown np op {s}")
+  pure (Json.mkObj [("out", out)])
+
 def dispatch (kind : String) (j : Json) : D Json :=
   match kind with
   | "test" => handleTest j
@@ -546,6 +609,7 @@ def dispatch (kind : String) (j : Json) : D Json :=
   | "c07" => handleC07 j
   | "c18" => handleC18 j
   | "system" => handleSystem j
+  | "np" => handleNp j
   | k => throw s!"unknown kind {k}"
 
 end IoosQc.Handlers
